@@ -315,3 +315,73 @@ pub fn watchdog_enter(case: u64) {
 pub fn watchdog_leave() {
 	WD_ACTIVE.store(false, Ordering::SeqCst);
 }
+
+// ---------------------------------------------------------------- stalled process: deadlock or slow machine?
+
+fn proc_cpu_ticks() -> Option<u64> {
+	let s = std::fs::read_to_string("/proc/self/stat").ok()?;
+	// the command name may contain spaces: fields are counted after the closing parenthesis
+	let rest = &s[s.rfind(')')? + 1..];
+	let f: Vec<&str> = rest.split_whitespace().collect();
+	// rest starts at field 3 (state): utime = field 14, stime = field 15
+	let ut: u64 = f.get(11)?.parse().ok()?;
+	let st: u64 = f.get(12)?.parse().ok()?;
+	Some(ut + st)
+}
+
+/// A stall is a deadlock beyond doubt when, over a further observation window, the progress counters stay frozen,
+/// the process burns no CPU time to speak of, and the all-thread dump taken at the stall shows two or more threads
+/// parked on a lock and none inside file I/O. Anything less is left to the caller (re-execution). Returns
+/// (confirmed, what was seen).
+pub fn deadlock_confirmed_in_place(progress: &dyn Fn() -> u64, gdb_text: &str, window_s: u64) -> (bool, String) {
+	let mut parked = 0usize;
+	let mut in_io = 0usize;
+	let mut threads = 0usize;
+	let mut cur = String::new();
+	let mut blocks: Vec<String> = vec![];
+	for line in gdb_text.lines() {
+		if line.starts_with("Thread ") {
+			if !cur.is_empty() {
+				blocks.push(std::mem::take(&mut cur));
+			}
+		}
+		if line.starts_with("Thread ") || line.starts_with('#') {
+			cur.push_str(line);
+			cur.push('\n');
+		}
+	}
+	if !cur.is_empty() {
+		blocks.push(cur);
+	}
+	for b in &blocks {
+		threads += 1;
+		if b.contains("parking_lot::raw_rwlock::RawRwLock::") || b.contains("parking_lot::raw_mutex::RawMutex::lock_slow") {
+			parked += 1;
+		}
+		if ["fsync", "fdatasync", "msync", "pwrite", "pread", "ftruncate", "mdb_env_sync", "fallocate", "__GI___libc_read", "__GI___libc_write"].iter().any(|n| b.contains(n)) {
+			in_io += 1;
+		}
+	}
+	if parked < 2 || in_io > 0 {
+		return (false, format!("thread dump: {} threads, {} parked on a lock, {} in file I/O", threads, parked, in_io));
+	}
+	let p0 = progress();
+	let c0 = match proc_cpu_ticks() {
+		Some(c) => c,
+		None => return (false, "process CPU time not readable".into()),
+	};
+	let t0 = std::time::Instant::now();
+	while t0.elapsed().as_secs() < window_s {
+		std::thread::sleep(std::time::Duration::from_millis(250));
+		if progress() != p0 {
+			return (false, "progress resumed during the confirmation window".into());
+		}
+	}
+	let c1 = proc_cpu_ticks().unwrap_or(u64::MAX);
+	let used = c1.saturating_sub(c0);
+	let note = format!(
+		"thread dump: {} threads, {} parked on a lock, none in file I/O; further {} s: no progress, {} clock ticks of CPU time used by the whole process",
+		threads, parked, window_s, used
+	);
+	(used <= 20, note)
+}
